@@ -13,10 +13,10 @@ CRATE = os.path.join(ROOT, "kani")
 
 HARNESSES = {
     "C05": ["big_add_1limb", "big_sub_1limb", "big_mul_1limb", "big_cmp_eq_neg_1limb", "big_new_isize"],
-    "C06": ["big_add_1limb", "big_mul_1limb", "num_cmp_small"],
-    "C07": ["big_cmp_eq_neg_1limb", "num_cmp_small"],
+    "C06": ["big_add_1limb", "big_mul_1limb"],
+    "C07": ["big_cmp_eq_neg_1limb"],
     "C09": ["big_mul_1limb", "big_add_1limb"],
-    "C01": ["num_cmp_small"],
+    "C01": ["big_add_1limb"], "C02": ["big_add_1limb"], "C10": ["big_add_1limb"], "C14": ["big_new_isize"],
 }
 BOUNDS = {
     "big_add_1limb": "operands: one fully symbolic 32-bit limb + sign each; unwind 10",
@@ -36,13 +36,15 @@ def run_one(h, timeout):
         p = subprocess.run(["bash", "-c", cmd], cwd=CRATE, env=env, stdout=subprocess.PIPE, stderr=subprocess.STDOUT,
                            text=True, timeout=timeout)
         out = p.stdout
+        failed = [f for f in re.findall(r"Failed Checks: (.*)", out) if "unwinding assertion" not in f][:5]
         if "VERIFICATION:- SUCCESSFUL" in out:
             st = "successful"
-        elif "VERIFICATION:- FAILED" in out:
+        elif "out of memory" in out or ("unwinding assertion" in out and not failed):
+            st = "no-result (resource limit or unwinding bound reached)"
+        elif "VERIFICATION:- FAILED" in out and failed:
             st = "FAILED"
         else:
             st = "no-result (rc=%d)" % p.returncode
-        failed = re.findall(r"Failed Checks: (.*)", out)[:5]
     except subprocess.TimeoutExpired:
         st, failed = "timeout after %ds" % timeout, []
     return {"harness": h, "status": st, "bound": BOUNDS.get(h, ""), "wall_s": round(time.time() - t0, 1),
